@@ -2352,6 +2352,12 @@ func buildAckRanges(entries []*shareAckState, gaps []shareAckRange) (ranges []sh
 	for _, g := range gaps {
 		ranges = coalesceAppendRange(ranges, g)
 	}
+	// The broker requires a partition's batches in ascending offset
+	// order; user entries and gaps were each built ascending, but a gap
+	// can sit below a user entry drained with it.
+	slices.SortStableFunc(ranges, func(a, b shareAckRange) int {
+		return cmp.Compare(a.firstOffset, b.firstOffset)
+	})
 	return
 }
 
